@@ -22,10 +22,12 @@ fi
 grep -E "^test result|FAILED|failed|panicked" /tmp/seed/suite_$ID.log | sort | uniq -c
 echo "suite exit: $rc"
 echo "== demo with change"
+cargo build -p eqlog --offline -q 2>&1 | tail -n 3     # some demos use target/debug/eqlog as it is
 rm -rf "$OUT/demo/target"
 bash "$OUT/demo/run.sh" "$WT" 2>&1 | tail -n 15; echo "demo rc with change=${PIPESTATUS[0]}"
 echo "== demo without change"
 git checkout -q -- .
+cargo build -p eqlog --offline -q 2>&1 | tail -n 3
 bash "$OUT/demo/run.sh" "$WT" 2>&1 | tail -n 8; echo "demo rc without change=${PIPESTATUS[0]}"
 git status --short | grep -v '^??'
 } > "$LOG" 2>&1
